@@ -77,6 +77,12 @@ CHECKS = {
    text="The specification fixes the meaning of wrapping arithmetic, signed/unsigned comparison, truncating division, constant shifts, casts, literal operands, if/else phi (incl. nested ifs and calls inside a branch), early return, unrolled loops, arrays, structs and multi-result calls; TLC's simulation enumerates thousands of programs per run over several width sets and evaluates each with the interpreter on up to 49 boundary input pairs; the harness renders each program as MPCL source, compiles it with compiler.New(params).Compile and compares Circuit.Compute with the prediction; the repository's own 205 @Test vectors (72 programs) are re-evaluated the way testsuite_test.go reads them.",
    note="Trusts TLC and the renderer (a total function from the three-address form to MPCL source); widths above 13 bits are covered relationally under C07; programs the compiler rejects are counted separately.",
    ref="5 C03"),
+ "C07": dict(
+   technique="TLA+ spec Arith.tla (exact reference function of every builder per operand/result width; one TLC state per (op, wx, wy, wz) with its complete truth table) compared with the circuits the real builders produce for Yao and GMW; wide operands validated relationally by TLC with the limb arithmetic of BV.tla (ArithTrace.tla)",
+   level="model_checking",
+   text="TLC enumerates every (builder, wx, wy, wz) for widths 1..5 (all pairs; result widths max, max+1, 2*max, 2*max+3) and equal widths up to 8 and prints the complete truth table of the exact function (23 builders incl. signed/unsigned division and modulo, comparators, mux, bitwise, Hamming); the harness builds each circuit the way ssa/circuitgen.go does (intermediate wires, ID to outputs, ConstPropagate, ShortCircuitXORZero, optional Prune, Compile) for both targets and compares every entry; for operand widths 7..130 (every Karatsuba switch point +-1, 2^k and 2^k+-1) boundary-pattern operands are evaluated on the real circuits and TLC checks each result relationally on base-4096 limbs (z+y = x mod 2^wz, q*y+r = x and r < y, sign rules).",
+   note="Trusts TLC, Circuit.Compute as evaluator, the limb arithmetic (self-checked by an ASSUME against TLC's native integers); deviations for result widths above the operand widths and two GMW divider cases are listed in KNOWN_FINDINGS.json.",
+   ref="5 C07"),
 }
 
 NOT_APPLICABLE = {}
